@@ -468,6 +468,13 @@ def run(tier):
         'standard-side lengths (MIL-STD-2500C) are a hand transcription',
     ]
     unknown = [f for f in fails if not (f.get('key') and chk.known(f['key']))]
+    # one case per distinct defect first (key, else element / TRE name), so that the five reported cases are five different things
+    first, rest, seen_groups = [], [], set()
+    for f in unknown:
+        g = f.get('key') or (f.get('kind'), f.get('tre') or str(f.get('case')))
+        (rest if g in seen_groups else first).append(f)
+        seen_groups.add(g)
+    unknown = first + rest
     for f in unknown[:5]:
         chk.violation(f['msg'], {'case': f, 'replay_cmd': './check C13 --replay <this file>'}, True)
     if len(unknown) > 5:
